@@ -15,6 +15,9 @@ package lease_set2
 //@ import "github.com/go-i2p/common/keys_and_cert"
 //@ import "github.com/go-i2p/common/offline_signature"
 //@ import sig "github.com/go-i2p/common/signature"
+//@ import "crypto/ed25519"
+//@ import common "github.com/go-i2p/common/data"
+//@ import "github.com/go-i2p/common/lease"
 
 //@ loop parseEncryptionKeys 0: unroll 16
 //@ loop parseLease2Array 0: unroll 16
@@ -53,6 +56,20 @@ package lease_set2
 //@   ensures @C05 err == nil ==> sigvalid(LS2SigKey(ls2), LS2Signed(ls2), sig.SigData(ls2.signature))
 //@   ensures @C05 err == nil && LS2Offline(ls2) ==> sigvalid(ls2.destination.KeysAndCert.SigningPublic.Bytes(), offline_signature.OffSignedData(ls2.offlineSignature), offline_signature.OffSig(ls2.offlineSignature))
 //@   modifies nothing
+
+// C06: a LeaseSet2 built by NewLeaseSet2 with the private half of the
+// destination's Ed25519 signing key verifies (one encryption key, one lease, no
+// offline keys, empty options; everything executed from the bodies).
+//@ option C06_LS2SignThenVerify nocontract *
+//@ lemma C06_LS2SignThenVerify(data []byte, published uint32, expires uint16, priv ed25519.PrivateKey, ek EncryptionKey, l lease.Lease2) {
+//@   d, _, err := destination.ReadDestination(data)
+//@   assume(err == nil && len(priv) == 64)
+//@   assume(key_certificate.SigType(d.KeysAndCert.KeyCertificate) == 7 && seqeq(d.KeysAndCert.SigningPublic.Bytes(), priv[32:]))
+//@   ls2, e := NewLeaseSet2(d, published, expires, 0, nil, common.Mapping{}, []EncryptionKey{ek}, []lease.Lease2{l}, priv)
+//@   if e == nil {
+//@     assert((&ls2).Verify() == nil)
+//@   }
+//@ }
 
 // C09: the Destination inside an accepted LeaseSet2 obeys the key-type policy.
 //@ lemma C09_ReadLeaseSet2(data []byte) {
